@@ -143,7 +143,7 @@ type c01E2ECase struct {
 	useBase    bool
 }
 
-var c01E2EHdrNames = []string{"Accept", "X-A", "X-B", "X-C", "X-Long-Header-Name", "Content-Type", "Authorization", "Referer", "Origin", "Accept-Language", "Cache-Control", "Pragma",
+var c01E2EHdrNames = []string{"User-Agent", "Accept", "X-A", "X-B", "X-C", "X-Long-Header-Name", "Content-Type", "Authorization", "Referer", "Origin", "Accept-Language", "Cache-Control", "Pragma",
 	"If-None-Match", "X-Forwarded-For", "X_y", "X.y", "A", "Z", "Sec-Ch-Ua", "X-1", "X-2", "X-3", "Idempotency-Key"}
 
 var c01E2EHdrValues = []string{"v", "value", "a, b", "  lead", "trail  ", "\tt\t", "x y z", "ü", "日本", "\xff", "text/html; q=0.9", "\"q\"", "semi;colon", "a\tb", strings.Repeat("v", 300), "", "a=b&c=d", "{}", "%41"}
@@ -366,6 +366,10 @@ func c01Expected(tc *c01E2ECase) (method, ruri string, lines []string, body []by
 	for k, vs := range hdr {
 		lk := strings.ToLower(k)
 		if lk == "user-agent" {
+			// at most one User-Agent: the first value, none when blank
+			if k == "User-Agent" && len(vs) > 0 && vs[0] != "" {
+				lines = append(lines, lk+": "+strings.Trim(vs[0], " \t"))
+			}
 			continue
 		}
 		for _, v := range vs {
